@@ -34,7 +34,7 @@ HeadersOf(file) == LET h == FirstData(file) IN [j \in 1..Len(h) |-> CleanHeader(
 
 InitSt == [vars |-> <<>>, stopped |-> FALSE, skip |-> FALSE, advance |-> 0, valid |-> TRUE,
            matchCount |-> 0, curMatch |-> 0, scanCount |-> 0, printed |-> <<>>, frozen |-> FALSE,
-           memo |-> <<>>, cur |-> 0, built |-> FALSE]
+           memo |-> <<>>, cur |-> 0, built |-> FALSE, onceDone |-> {}]
 \* The Matcher is built (and the match part validated) the first time a line reaches matches();
 \* counter.name() initialises its variable to 0 at that point (Counter.check_valid).
 RECURSIVE SetIfNone(_, _)
@@ -52,7 +52,8 @@ Ctx(case, k) ==
   [line |-> file[k + 1], headers |-> HeadersOf(file), k |-> k,
    dataCount |-> LmCount(CountData(file, k)), endNum |-> N - 1,
    lastScan |-> IsLastScanLine(case.prog.scan, k, N),
-   totalData |-> LmCount(CountData(file, N - 1)), AND |-> case.cfg.AND, comps |-> case.prog.comps]
+   totalData |-> LmCount(CountData(file, N - 1)), AND |-> case.cfg.AND, comps |-> case.prog.comps,
+   meta |-> case.prog.meta]
 
 \* _consider_line: returns [st, ret] where ret is what next() uses to decide to yield
 Consider(case, st, k) ==
